@@ -311,6 +311,10 @@ def conversion_classes(ctx):
     add(src_dtype="uint16", copy="copy", iso=True, prior=["image", "raw", "-", "s110"])
     add(src_dtype="uint32", copy="copy", src_type="segmentation", src_enc="compressed_segmentation",
         kind="blobs", method="stride", prior=["segmentation", "raw", "uint64", "keep"])
+    # 23. destination infos that list MORE scales than the source has (fewer: section 6)
+    add(src_dtype="uint8", src_max="two", dst_max="all")
+    add(src_dtype="uint16", src_max="one", dst_max="all", dst_sh="s110", iso=True)
+    add(src_dtype="uint8", src_max="one", dst_max="two", dst_dtype="uint16")
     return out
 
 
